@@ -1,4 +1,238 @@
-//! stream `uper` — not implemented yet
-pub fn handle(_args: &[&str]) -> Option<String> {
-    None
+//! stream `uper` (L2): the real `UperWriter`/`UperReader` on the compiled zoo types
+use crate::dynval::*;
+use crate::per::{bits_to_string, string_to_bits};
+use crate::util::per_err;
+use crate::zoo::{with_type, Visitor, ZOO_TYPES};
+use asn1rs::descriptor::{Readable, Writable};
+use asn1rs::prelude::*;
+
+/// the rest of a request line after the type name: a sequence of atoms / S-expressions
+fn parse_args(rest: &[&str]) -> Option<Vec<Sx>> {
+    parse_sx_all(&rest.join(" "))
+}
+
+fn atom(sx: &Sx) -> Option<&str> {
+    match sx {
+        Sx::Atom(a) => Some(a.as_str()),
+        _ => None,
+    }
+}
+
+fn encode<T: Writable>(v: &T) -> Result<(Vec<u8>, usize), String> {
+    let mut w = UperWriter::default();
+    match w.write(v) {
+        Ok(()) => Ok((w.byte_content().to_vec(), w.bit_len())),
+        Err(e) => Err(per_err(&e).to_string()),
+    }
+}
+
+/// decodes one value; returns the value dump, the number of bits consumed and the remaining count
+fn decode<T: Readable + Writable>(bytes: &[u8], bit_len: usize) -> Result<(String, usize, usize), String> {
+    let mut r = UperReader::from((bytes, bit_len));
+    match r.read::<T>() {
+        Ok(v) => {
+            let rem = r.bits_remaining();
+            let dump = to_val(&v).map(|x| x.to_sexpr()).unwrap_or_else(|e| format!("(dump-error {e})"));
+            Ok((dump, bit_len - rem, rem))
+        }
+        Err(e) => {
+            // the accessor must stay callable after a failed read (C04)
+            let _ = r.bits_remaining();
+            Err(per_err(&e).to_string())
+        }
+    }
+}
+
+struct Op<'a> {
+    op: &'a str,
+    args: Vec<Sx>,
+}
+
+impl<'a> Visitor for Op<'a> {
+    type Out = Option<String>;
+    fn visit<T: Readable + Writable + std::fmt::Debug + PartialEq + Clone>(self) -> Option<String> {
+        let a = &self.args;
+        Some(match self.op {
+            // descriptor as the codec sees it
+            "desc" => match gen::<T>(1, GenMode::Valid, 3) {
+                Ok((_, ty, _)) => format!("ok {ty}"),
+                Err(e) => format!("err desc:{}", e.replace(' ', "_")),
+            },
+            // random typed value: `gen <name> <seed> <valid|violate> <maxlist>`
+            "gen" => {
+                let seed: u64 = atom(a.first()?)?.parse().ok()?;
+                let mode = match atom(a.get(1)?)? {
+                    "valid" => GenMode::Valid,
+                    "violate" => GenMode::Violate,
+                    _ => return None,
+                };
+                let max_list: u64 = atom(a.get(2)?)?.parse().ok()?;
+                match gen::<T>(seed, mode, max_list) {
+                    Ok((v, ty, violated)) => match to_val(&v) {
+                        Ok(val) => format!("ok {} {} {}", violated.unwrap_or_else(|| "-".into()), ty, val.to_sexpr()),
+                        Err(e) => format!("err dump:{}", e.replace(' ', "_")),
+                    },
+                    Err(e) => format!("err gen:{}", e.replace(' ', "_")),
+                }
+            }
+            // `enc <name> <Ty> <Val>` -> bits
+            "enc" => {
+                let v: T = match from_val(val_of_sx(a.get(1)?)?) {
+                    Ok(v) => v,
+                    Err(_) => return None,
+                };
+                match encode(&v) {
+                    Ok((bytes, n)) => format!("ok {}", bits_to_string(&bytes, n)),
+                    Err(k) => format!("err {k}"),
+                }
+            }
+            // `dec <name> <Ty> <bits>` -> value, consumed
+            "dec" => {
+                let (bytes, n) = string_to_bits(atom(a.get(1)?)?)?;
+                match decode::<T>(&bytes, n) {
+                    Ok((dump, consumed, _)) => format!("ok {dump} {consumed}"),
+                    Err(k) => format!("err {k}"),
+                }
+            }
+            // `rt <name> <Ty> <Val>` -> bits, decoded value, remaining bits
+            "rt" => {
+                let v: T = match from_val(val_of_sx(a.get(1)?)?) {
+                    Ok(v) => v,
+                    Err(_) => return None,
+                };
+                match encode(&v) {
+                    Ok((bytes, n)) => match decode::<T>(&bytes, n) {
+                        Ok((dump, _, rem)) => format!("ok {} {} {}", bits_to_string(&bytes, n), dump, rem),
+                        Err(k) => format!("ok {} readerr:{k} -", bits_to_string(&bytes, n)),
+                    },
+                    Err(k) => format!("err {k}"),
+                }
+            }
+            // long lists: `rtn <name> <Ty> <n> <seed>`: a value whose first list/string has n items
+            _ => return None,
+        })
+    }
+}
+
+/// `many <name1> <Val1> <name2> <Val2> …` : several values back-to-back in one writer, read back
+/// in the same order from one reader
+struct ManyW<'a> {
+    w: &'a mut UperWriter,
+    val: Val,
+}
+impl<'a> Visitor for ManyW<'a> {
+    type Out = Result<(), String>;
+    fn visit<T: Readable + Writable + std::fmt::Debug + PartialEq + Clone>(self) -> Self::Out {
+        let v: T = from_val(self.val).map_err(|_| "bad-op".to_string())?;
+        self.w.write(&v).map_err(|e| per_err(&e).to_string())
+    }
+}
+struct ManyR<'a, 'b> {
+    r: &'a mut UperReader<Bits<'b>>,
+}
+impl<'a, 'b> Visitor for ManyR<'a, 'b> {
+    type Out = Result<String, String>;
+    fn visit<T: Readable + Writable + std::fmt::Debug + PartialEq + Clone>(self) -> Self::Out {
+        match self.r.read::<T>() {
+            Ok(v) => Ok(to_val(&v).map(|x| x.to_sexpr()).unwrap_or_else(|e| format!("(dump-error {e})"))),
+            Err(e) => Err(per_err(&e).to_string()),
+        }
+    }
+}
+
+/// `cross <nameW> <TyW> <Val> <nameR> <TyR> <sentinel bits>`: encode under W, append the sentinel,
+/// decode under R; answer: bits, value as R sees it, bits consumed by R
+struct CrossR<'a> {
+    bytes: &'a [u8],
+    n: usize,
+}
+impl<'a> Visitor for CrossR<'a> {
+    type Out = String;
+    fn visit<T: Readable + Writable + std::fmt::Debug + PartialEq + Clone>(self) -> String {
+        match decode::<T>(self.bytes, self.n) {
+            Ok((dump, consumed, _)) => format!("{dump} {consumed}"),
+            Err(k) => format!("readerr:{k} -"),
+        }
+    }
+}
+struct CrossW {
+    val: Val,
+}
+impl Visitor for CrossW {
+    type Out = Option<Result<(Vec<u8>, usize), String>>;
+    fn visit<T: Readable + Writable + std::fmt::Debug + PartialEq + Clone>(self) -> Self::Out {
+        let v: T = from_val(self.val).ok()?;
+        Some(encode(&v))
+    }
+}
+
+pub fn handle(args: &[&str]) -> Option<String> {
+    match args {
+        ["list"] => Some(format!("ok {}", ZOO_TYPES.join(","))),
+        ["many", rest @ ..] => {
+            let sx = parse_args(rest)?;
+            if sx.len() % 3 != 0 || sx.is_empty() {
+                return None;
+            }
+            let mut w = UperWriter::default();
+            let mut names = Vec::new();
+            for ch in sx.chunks(3) {
+                let name = atom(&ch[0])?.to_string();
+                let val = val_of_sx(&ch[2])?;
+                match with_type(&name, ManyW { w: &mut w, val })? {
+                    Ok(()) => {}
+                    Err(k) if k == "bad-op" => return None,
+                    Err(k) => return Some(format!("err {k}")),
+                }
+                names.push(name);
+            }
+            let bytes = w.byte_content().to_vec();
+            let n = w.bit_len();
+            let mut r = UperReader::from((&bytes[..], n));
+            let mut out = vec![format!("ok {}", bits_to_string(&bytes, n))];
+            for name in &names {
+                match with_type(name, ManyR { r: &mut r })? {
+                    Ok(d) => out.push(d),
+                    Err(k) => {
+                        out.push(format!("readerr:{k}"));
+                        break;
+                    }
+                }
+            }
+            out.push(r.bits_remaining().to_string());
+            Some(out.join(" "))
+        }
+        ["cross", rest @ ..] => {
+            let sx = parse_args(rest)?;
+            if sx.len() != 6 {
+                return None;
+            }
+            let name_w = atom(&sx[0])?;
+            let val = val_of_sx(&sx[2])?;
+            let name_r = atom(&sx[3])?;
+            let (sb, sn) = string_to_bits(atom(&sx[5])?)?;
+            match with_type(name_w, CrossW { val })?? {
+                Err(k) => Some(format!("err {k}")),
+                Ok((bytes, n)) => {
+                    // append the sentinel bits
+                    let mut all = bits_to_string(&bytes, n);
+                    if all == "-" {
+                        all.clear();
+                    }
+                    let s = bits_to_string(&sb, sn);
+                    if s != "-" {
+                        all.push_str(&s);
+                    }
+                    let (ab, an) = string_to_bits(if all.is_empty() { "-" } else { &all })?;
+                    let r = with_type(name_r, CrossR { bytes: &ab, n: an })?;
+                    Some(format!("ok {} {}", bits_to_string(&bytes, n), r))
+                }
+            }
+        }
+        [op, name, rest @ ..] => {
+            let sx = parse_args(rest)?;
+            with_type(name, Op { op, args: sx })?
+        }
+        _ => None,
+    }
 }
